@@ -225,3 +225,23 @@ CHECKS["C10"] = {
     ],
     "assumptions": ["sequences longer than two read-only calls are covered by the whole battery run in one fixed order, not by all permutations"],
 }
+
+CHECKS["C07"] = {
+    "engine": "E2",
+    "technique": "explicit-state breadth-first search over setter histories + exhaustive enumeration of parsed conventional files; every state/file written and read back under all six (delimiter, comment) character pairs",
+    "level_text": "every state reachable by <= d setter calls (group-less and sectioned keys in any interleaving, re-opened sections, overwritten keys; values: "
+                  "plain, empty, inner blank, three-line, containing '#') from two empty constructors and a parsed file with quoted values, comments and a "
+                  "continuation - and every parsed conventional file of the bounded generator - is written with each of {=,:,blank} x {#,;} set on the object "
+                  "and read back with the same characters; sections, per-section key order, values (line-wise) and the comments of single-line entries must be "
+                  "equal; states with an entry outside DESIGN 5.4 for that pair are skipped and counted",
+    "level_note": "bounded: depth 3, files N<=2 D<=1 (quick); depth 4, files N<=3 D<=1 (thorough); trusted: the 5.4 predicate in harness/c07.c (it only decides what is skipped)",
+    "rule": "case = (state or file, delimiter char, comment char); non-trivial = at least one pair inside 5.4 and at least one key; skipped pairs are counted in skipped_outside_property",
+    "deadline": {"quick": 110, "thorough": 1200},
+    "parts": [
+        {"name": "bfs-roundtrip", "harness": "c07", "variant": "asan", "shards": 1, "quick": ["--p0", 0, "--p1", 3], "thorough": ["--p0", 0, "--p1", 4],
+         "deadline_share": 0.5, "floor": {"quick": 1000, "thorough": 10000}},
+        {"name": "files-roundtrip", "harness": "c07", "variant": "asan", "quick": ["--p0", 1, "--p1", 2, "--p2", 1], "thorough": ["--p0", 1, "--p1", 3, "--p2", 1],
+         "deadline_share": 0.5, "floor": {"quick": 10000, "thorough": 100000}},
+    ],
+    "assumptions": ["comments longer than the stdio buffer are C14's subject"],
+}
